@@ -426,6 +426,50 @@ def rule_6(ctx):
     ctx.floor(10, 'operator-node witnesses')
 
 
+def rule_7(ctx):
+    """Every validated registered function with scalar parameters only, called the way the evaluator calls it (validate_args as
+    written): an error value at any argument position is the result - that very error -, the leftmost one when two are given."""
+    from . import values as V
+    from xlsa.guards import ExcRaised
+
+    def nodate(*a, **k):
+        raise ExcRaised(Ref('builtin:ValueError'))
+    models = {'ext:dateutil.parser.parse': nodate}
+    models.update(V.numpy_models())
+    base = {'XlNumber': lambda: V.num(1), 'XlText': lambda: V.text('a'), 'XlBoolean': lambda: V.boolean(True), 'XlDateTime': lambda: V.num(40000),
+            'XlAnything': lambda: V.num(1), 'Number': lambda: V.num(1), '': lambda: V.num(1)}
+    n = 0
+    for f in ctx.a.registry:
+        if not f.validated:
+            continue
+        pos = [p for p in f.params if p.kind == 'pos']
+        if not pos or len(pos) != len(f.params):
+            continue
+        kinds = [ast.unparse(p.annotation).rpartition('.')[2] if p.annotation is not None else '' for p in pos]
+        if not all(k in base for k in kinds):
+            continue
+        wrong = []
+        for code in ('NaExcelError', 'DivZeroExcelError'):
+            for i, p in enumerate(pos):
+                err = V.error(ctx, code)
+                args = [base[k]() for k in kinds]
+                args[i] = err
+                out = V.call(ctx, f.name, args, models=models)
+                if not (out.end == 'return' and out.value is err):
+                    wrong.append(f'{code} as {p.name}: {out.end} {V.norm(out.value)!r}')
+        if len(pos) >= 2:
+            e1, e2 = V.error(ctx, 'NumExcelError'), V.error(ctx, 'RefExcelError')
+            args = [base[k]() for k in kinds]
+            args[0], args[-1] = e1, e2
+            out = V.call(ctx, f.name, args, models=models)
+            if not (out.end == 'return' and out.value is e1):
+                wrong.append(f'#NUM! first and #REF! last: {out.end} {V.norm(out.value)!r} instead of the leftmost error')
+        n += 1
+        ctx.expect(not wrong, f.node, f'{f.name}: an error argument is the result',
+                   f'{f.name} called with an error value does not return it: ' + '; '.join(wrong[:3]))
+    ctx.floor(60, 'scalar registered functions')
+
+
 RULES = [
     ('C07.1', 'registration discipline', rule_1),
     ('C07.2', 'no error value reaches a swallowing handler', rule_2),
@@ -433,4 +477,5 @@ RULES = [
     ('C07.4', 'error/type inspectors: decision tables over the class lattice', rule_4),
     ('C07.5', 'validate_args contract', rule_5),
     ('C07.6', 'operator nodes evaluate every operand and apply the operator function to the values', rule_6),
+    ('C07.7', 'error arguments of scalar functions are returned (through the registered wrapper), leftmost first', rule_7),
 ]
